@@ -2,7 +2,7 @@
  * spec/sigv4_spec.h -- AWS Signature Version 4 as a specification, written from the published algorithm
  * ("Signing AWS API requests" / "Create a signed AWS API request", AWS General Reference; for S3: "Authenticating
  * Requests: Using the Authorization Header / Using Query Parameters (AWS Signature Version 4)"), independently of
- * aws/aws_sign.c: no printf-style formatting, strings are assembled piece by piece into bounded byte buffers.
+ * aws/aws_sign.c: no printf-style formatting, strings are assembled piece by piece.
  *
  *   CanonicalRequest = Method \n CanonicalURI \n CanonicalQueryString \n CanonicalHeaders \n SignedHeaders \n
  *                      HexEncode(Hash(Payload))                    (or the literal UNSIGNED-PAYLOAD for presigned S3 URLs)
@@ -16,95 +16,74 @@
  *   kSigning = HMAC(kService, "aws4_request");   Signature = HexEncode(HMAC(kSigning, StringToSign))
  *   Authorization: AWS4-HMAC-SHA256 Credential=<KeyId>/<CredentialScope>,SignedHeaders=<SignedHeaders>,Signature=<Signature>
  *
- * The two primitives are PARAMETERS of the specification:
- *   SV4_SHA256(msg, len, out32)            SV4_HMAC(key, klen, msg, len, out32)
- * In the proofs they are bound to the spec side of the lockstep trace abstraction (harness/C19/c19.h); in the native
- * self-test (harness/C19/native_selftest.sh) to a real SHA-256, to check this text against AWS's published example.
+ * Strings are kept in the normal form of models/aws_stream.h (runs of text at constant positions, whole input
+ * strings by reference, ints): equal normal forms = equal byte strings, without any dependence on the lengths of the
+ * inputs.  sv4_in() appends an INPUT string (key id, secret, region, ... -- registered in g_aws_in by the harness),
+ * sv4_lit() a literal of this text, sv4_mem() a string whose length is fixed by this specification (date: 8,
+ * timestamp: 16, hex digest: 64).
+ *
+ * The primitives are PARAMETERS of the specification (bound by harness/C19/c19.h to the spec side of the lockstep
+ * trace abstraction):
+ *   SV4_SHA256(msg, out32)   SV4_HMAC_S(key, msg, out32)   SV4_HMAC_B(key32, msg, out32)     msg, key: normal forms
  *
  * Domain: key ids, regions, services, buckets, methods, operation names over the URI-unreserved alphabet
  * (A-Z a-z 0-9 - . _ ~), paths over unreserved + '/', so that URI-encoding and header-value trimming are the
- * identity -- aws_sign.h documents that the interface does no encoding.  The spec still encodes (sv4_uri), so an
- * input outside the alphabet would show up as a difference, not be silently accepted.
+ * identity -- aws_sign.h documents that the interface does no encoding.  Where the published algorithm URI-encodes
+ * an input, the spec calls sv4_uri_in(), which DEMANDS that the input is in that domain (SV4_DOMAIN obligation)
+ * and appends it unchanged; an input outside the alphabet therefore shows up as a failed obligation, it is not
+ * silently accepted.
  */
 #ifndef SIGV4_SPEC_H_
 #define SIGV4_SPEC_H_
 #include <stddef.h>
 #include <stdint.h>
+#include "aws_stream.h"
 
-#ifndef SV4_MAX
-#define SV4_MAX 320		/* capacity of a specification string */
-#endif
-#ifndef SV4_ARGMAX
-#define SV4_ARGMAX 72		/* longest NUL-terminated argument the spec will scan */
+#ifndef SV4_INMAX
+#define SV4_INMAX 72		/* longest input string the domain check will scan */
 #endif
 
-#ifdef VERIF_NATIVE
-#define SV4_BOUND(c, what) do { if (!(c)) { fprintf(stderr, "SPEC-BOUND %s\n", what); abort(); } } while (0)
-#else
-#define SV4_BOUND(c, what) do { __CPROVER_assert(c, "MODEL-BOUND sigv4_spec: " what); __CPROVER_assume(c); } while (0)
+#ifndef VERIF_NATIVE
+#pragma CPROVER check push
+#pragma CPROVER check disable "conversion"
 #endif
 
-struct sv4_str {
-	size_t n;
-	uint8_t b[SV4_MAX];
-};
+typedef struct aws_stream sv4_str;
 
+static int sv4_domain_ok = 1;	/* cleared when an input that must be URI-encoded is outside the identity domain */
+
+#define sv4_init(B)		aws_stream_init(B)
+#define sv4_c(B, c)		aws_stream_c((B), (uint8_t)(c))
+#define sv4_mem(B, p, n)	aws_stream_mem((B), (p), (n))
+#define sv4_cat(B, A)		aws_stream_cat((B), (A))
+#define sv4_int(B, v)		aws_stream_int((B), (v))
+
+/* a literal of the specification text */
 static void
-sv4_init(struct sv4_str * B)
+sv4_lit(sv4_str * B, const char * lit)
 {
 	size_t i;
 
-	B->n = 0;
-	for (i = 0; i < SV4_MAX; i++)
-		B->b[i] = 0;
-}
-
-static void
-sv4_c(struct sv4_str * B, uint8_t c)
-{
-
-	SV4_BOUND(B->n < SV4_MAX, "specification string longer than SV4_MAX");
-	B->b[B->n] = c;
-	B->n++;
-}
-
-/* a literal of the specification text (NUL-terminated C string constant) */
-static void
-sv4_lit(struct sv4_str * B, const char * lit)
-{
-	size_t i;
-
-	for (i = 0; i < SV4_ARGMAX; i++) {
+	for (i = 0; i < AWS_TXMAX; i++) {
 		if (lit[i] == '\0')
 			return;
-		sv4_c(B, (uint8_t)lit[i]);
+		sv4_c(B, lit[i]);
 	}
-	SV4_BOUND(0, "literal longer than SV4_ARGMAX");
 }
 
-/* a NUL-terminated argument, verbatim */
+/* an input string (must be registered: the specification never looks at its bytes) */
 static void
-sv4_cstr(struct sv4_str * B, const char * s)
+sv4_in(sv4_str * B, const char * s)
 {
-	size_t i;
+	size_t k;
 
-	for (i = 0; i < SV4_ARGMAX; i++) {
-		if (s[i] == '\0')
+	for (k = 0; k < AWS_NIN; k++) {
+		if (!g_aws_in[k].blob && g_aws_in[k].ptr != NULL && g_aws_in[k].ptr == (const void *)s) {
+			aws_stream_ref(B, (int)k);
 			return;
-		sv4_c(B, (uint8_t)s[i]);
+		}
 	}
-	SV4_BOUND(0, "argument longer than SV4_ARGMAX");
-}
-
-/* another specification string */
-static void
-sv4_cat(struct sv4_str * B, const struct sv4_str * A)
-{
-	size_t i;
-
-	for (i = 0; i < SV4_MAX; i++)
-		if (i < A->n)
-			sv4_c(B, A->b[i]);
+	AWS_ST_BOUND(0, "sv4_in: not a registered input string");
 }
 
 static int
@@ -115,133 +94,100 @@ sv4_unreserved(uint8_t c)
 	    c == '-' || c == '.' || c == '_' || c == '~');
 }
 
-static uint8_t
-sv4_hexdigit(unsigned v, int upper)
-{
-
-	return ((uint8_t)(v < 10 ? '0' + v : (upper ? 'A' : 'a') + (v - 10)));
-}
-
-/* UriEncode(): unreserved characters verbatim, '/' verbatim only in a path, everything else %XY (upper-case hex) */
+/* UriEncode(input): the identity on the domain (checked), see the header comment */
 static void
-sv4_uri(struct sv4_str * B, const struct sv4_str * A, int is_path)
+sv4_uri_in(sv4_str * B, const char * s, int is_path)
 {
 	size_t i;
 
-	for (i = 0; i < SV4_MAX; i++) {
-		if (i >= A->n)
+	for (i = 0; i < SV4_INMAX; i++) {
+		if (s[i] == '\0')
 			break;
-		if (sv4_unreserved(A->b[i]) || (is_path && A->b[i] == '/'))
-			sv4_c(B, A->b[i]);
-		else {
-			sv4_c(B, '%');
-			sv4_c(B, sv4_hexdigit(A->b[i] >> 4, 1));
-			sv4_c(B, sv4_hexdigit(A->b[i] & 0x0f, 1));
-		}
+		if (!(sv4_unreserved((uint8_t)s[i]) || (is_path && s[i] == '/')))
+			sv4_domain_ok = 0;
 	}
+	if (i == SV4_INMAX)
+		sv4_domain_ok = 0;
+	sv4_in(B, s);
 }
 
-static void
-sv4_uri_cstr(struct sv4_str * B, const char * s, int is_path)
-{
-	struct sv4_str A;
+/* a header value is trimmed and used verbatim: the identity on the domain (no blanks in the alphabet) */
+#define sv4_hdrval_in(B, s) sv4_uri_in((B), (s), 0)
 
-	sv4_init(&A);
-	sv4_cstr(&A, s);
-	sv4_uri(B, &A, is_path);
+static uint8_t
+sv4_hexdigit(unsigned v)
+{
+
+	return ((uint8_t)(v < 10 ? '0' + v : 'a' + (v - 10)));
 }
 
 /* HexEncode() of a 32-byte digest: lower-case base 16 */
 static void
-sv4_hex32(struct sv4_str * B, const uint8_t d[32])
+sv4_hex32(sv4_str * B, const uint8_t d[32])
 {
 	size_t i;
 
 	for (i = 0; i < 32; i++) {
-		sv4_c(B, sv4_hexdigit(d[i] >> 4, 0));
-		sv4_c(B, sv4_hexdigit(d[i] & 0x0f, 0));
+		sv4_c(B, sv4_hexdigit(d[i] >> 4));
+		sv4_c(B, sv4_hexdigit(d[i] & 0x0f));
 	}
 }
 
-/* the decimal numeral of an integer with |v| < 10^10 (X-Amz-Expires is a C int): optional '-', no leading zeros */
-static void
-sv4_dec(struct sv4_str * B, long long v)
-{
-	static const unsigned long long pow10[11] = { 1ULL, 10ULL, 100ULL, 1000ULL, 10000ULL, 100000ULL, 1000000ULL,
-	    10000000ULL, 100000000ULL, 1000000000ULL, 10000000000ULL };
-	unsigned long long u = (v < 0) ? 0ULL - (unsigned long long)v : (unsigned long long)v;
-	size_t i;
-
-	SV4_BOUND(u < pow10[10], "decimal numeral of more than 10 digits");
-	if (v < 0)
-		sv4_c(B, '-');
-	/* digit i (weight 10^i) is printed iff i == 0 or u >= 10^i; most significant first */
-	for (i = 10; i-- > 0; )
-		if (i == 0 || u >= pow10[i])
-			sv4_c(B, (uint8_t)('0' + (u / pow10[i]) % 10));
-}
-
 /*
- * Signature = HexEncode(HMAC(kSigning, StringToSign)).  date/datetime/region/service NUL-terminated; creq is the
- * canonical request.  sighex receives the 64 hex characters and a NUL.
+ * Signature = HexEncode(HMAC(kSigning, StringToSign)).  secret/region/service: inputs or literals; date, datetime,
+ * creq: normal forms.  sighex receives the 64 hex characters and a NUL.
  */
 static void
-sv4_signature(const char * secret, const char * date, const char * datetime, const char * region,
-    const char * service, const struct sv4_str * creq, char sighex[65])
+sv4_signature(const sv4_str * secret, const sv4_str * date, const sv4_str * datetime, const sv4_str * region,
+    const sv4_str * service, const sv4_str * creq, char sighex[65])
 {
-	struct sv4_str key, m, sts, hx;
+	sv4_str key, m, sts, hx;
 	uint8_t kDate[32], kRegion[32], kService[32], kSigning[32], hcreq[32], sig[32];
 	size_t i;
 
 	/* kDate = HMAC("AWS4" || Secret, Date) */
 	sv4_init(&key);
 	sv4_lit(&key, "AWS4");
-	sv4_cstr(&key, secret);
-	sv4_init(&m);
-	sv4_cstr(&m, date);
-	SV4_HMAC(key.b, key.n, m.b, m.n, kDate);
+	sv4_cat(&key, secret);
+	SV4_HMAC_S(&key, date, kDate);
 	/* kRegion = HMAC(kDate, Region) */
-	sv4_init(&m);
-	sv4_cstr(&m, region);
-	SV4_HMAC(kDate, 32, m.b, m.n, kRegion);
+	SV4_HMAC_B(kDate, region, kRegion);
 	/* kService = HMAC(kRegion, Service) */
-	sv4_init(&m);
-	sv4_cstr(&m, service);
-	SV4_HMAC(kRegion, 32, m.b, m.n, kService);
+	SV4_HMAC_B(kRegion, service, kService);
 	/* kSigning = HMAC(kService, "aws4_request") */
 	sv4_init(&m);
 	sv4_lit(&m, "aws4_request");
-	SV4_HMAC(kService, 32, m.b, m.n, kSigning);
+	SV4_HMAC_B(kService, &m, kSigning);
 
 	/* StringToSign */
-	SV4_SHA256(creq->b, creq->n, hcreq);
+	SV4_SHA256(creq, hcreq);
 	sv4_init(&sts);
 	sv4_lit(&sts, "AWS4-HMAC-SHA256");
 	sv4_c(&sts, '\n');
-	sv4_cstr(&sts, datetime);
+	sv4_cat(&sts, datetime);
 	sv4_c(&sts, '\n');
-	sv4_cstr(&sts, date);
+	sv4_cat(&sts, date);
 	sv4_c(&sts, '/');
-	sv4_cstr(&sts, region);
+	sv4_cat(&sts, region);
 	sv4_c(&sts, '/');
-	sv4_cstr(&sts, service);
+	sv4_cat(&sts, service);
 	sv4_c(&sts, '/');
 	sv4_lit(&sts, "aws4_request");
 	sv4_c(&sts, '\n');
 	sv4_hex32(&sts, hcreq);
 
-	SV4_HMAC(kSigning, 32, sts.b, sts.n, sig);
+	SV4_HMAC_B(kSigning, &sts, sig);
 	sv4_init(&hx);
 	sv4_hex32(&hx, sig);
 	for (i = 0; i < 64; i++)
-		sighex[i] = (char)hx.b[i];
+		sighex[i] = (char)hx.t[0].text[i];
 	sighex[64] = '\0';
 }
 
 /* one signed header: lower-case name, value (already assembled, trimmed) */
 struct sv4_header {
 	const char * name;
-	struct sv4_str value;
+	sv4_str value;
 };
 
 /*
@@ -249,9 +195,9 @@ struct sv4_header {
  * the payload line (hex of the payload hash, or UNSIGNED-PAYLOAD).  Also yields the SignedHeaders list.
  */
 static void
-sv4_canonical_request(struct sv4_str * creq, struct sv4_str * signed_headers, const char * method,
-    const char * path, const struct sv4_str * canonical_query, const struct sv4_header * h, size_t nh,
-    const struct sv4_str * payload_line)
+sv4_canonical_request(sv4_str * creq, sv4_str * signed_headers, const sv4_str * method,
+    const sv4_str * canonical_uri, const sv4_str * canonical_query, const struct sv4_header * h, size_t nh,
+    const sv4_str * payload_line)
 {
 	size_t i;
 
@@ -262,9 +208,9 @@ sv4_canonical_request(struct sv4_str * creq, struct sv4_str * signed_headers, co
 		sv4_lit(signed_headers, h[i].name);
 	}
 	sv4_init(creq);
-	sv4_cstr(creq, method);
+	sv4_cat(creq, method);
 	sv4_c(creq, '\n');
-	sv4_uri_cstr(creq, path, 1);
+	sv4_cat(creq, canonical_uri);
 	sv4_c(creq, '\n');
 	sv4_cat(creq, canonical_query);
 	sv4_c(creq, '\n');
@@ -280,56 +226,53 @@ sv4_canonical_request(struct sv4_str * creq, struct sv4_str * signed_headers, co
 	sv4_cat(creq, payload_line);
 }
 
-/* Date = first 8 characters of the ISO-8601 basic timestamp YYYYMMDD'T'HHMMSS'Z' */
-static void
-sv4_date_of(const char * datetime, char date[9])
-{
-	size_t i;
-
-	for (i = 0; i < 8; i++)
-		date[i] = datetime[i];
-	date[8] = '\0';
-}
-
-/* is s a timestamp of the form YYYYMMDD'T'HHMMSS'Z' (16 characters)? */
+/* is s a timestamp of the form YYYYMMDD'T'HHMMSS'Z' (16 characters, then NUL)? */
 static int
 sv4_is_timestamp(const char * s)
 {
 	size_t i;
+	int ok = 1;
 
 	for (i = 0; i < 16; i++) {
 		if (i == 8) {
 			if (s[i] != 'T')
-				return (0);
+				ok = 0;
 		} else if (i == 15) {
 			if (s[i] != 'Z')
-				return (0);
+				ok = 0;
 		} else if (!(s[i] >= '0' && s[i] <= '9'))
-			return (0);
+			ok = 0;
 	}
-	return (s[16] == '\0');
+	if (s[16] != '\0')
+		ok = 0;
+	return (ok);
 }
 
 /*
  * Header-signed request (S3, generic service, DynamoDB): the signed headers are host, x-amz-content-sha256,
- * x-amz-date and, when target != NULL, x-amz-target; the payload hash is SHA256(body) (empty when body == NULL).
- * Yields the X-Amz-Content-SHA256 value and the Authorization header value for the timestamp `datetime`.
+ * x-amz-date and, when target != NULL, x-amz-target; the payload hash is SHA256(body).
+ * `timestamp` = the 16 characters of the X-Amz-Date value; Date = its first 8 characters.
+ * Yields the X-Amz-Content-SHA256 value and the Authorization header value.
  */
 static void
-sv4_headers_request(const char * key_id, const char * secret, const char * region, const char * service,
-    const char * method, const char * path, const struct sv4_str * host, const struct sv4_str * target,
-    const uint8_t * body, size_t bodylen, const char * datetime,
-    struct sv4_str * content_sha256, struct sv4_str * authorization)
+sv4_headers_request(const char * key_id, const char * secret, const char * region, const sv4_str * service,
+    const sv4_str * method, const sv4_str * canonical_uri, const sv4_str * host, const sv4_str * target,
+    const sv4_str * body, const char * timestamp, sv4_str * content_sha256, sv4_str * authorization)
 {
 	struct sv4_header h[4];
-	struct sv4_str creq, sh, noquery;
+	sv4_str creq, sh, noquery, sec, reg, date, datetime;
 	uint8_t hbody[32];
-	char date[9], sighex[65];
-	size_t nh = 0, i;
+	char sighex[65];
+	size_t nh = 0;
 
-	SV4_SHA256(body, (body != NULL) ? bodylen : 0, hbody);
+	SV4_SHA256(body, hbody);
 	sv4_init(content_sha256);
 	sv4_hex32(content_sha256, hbody);
+
+	sv4_init(&datetime);
+	sv4_mem(&datetime, timestamp, 16);
+	sv4_init(&date);
+	sv4_mem(&date, timestamp, 8);
 
 	h[nh].name = "host";
 	h[nh].value = *host;
@@ -338,8 +281,7 @@ sv4_headers_request(const char * key_id, const char * secret, const char * regio
 	h[nh].value = *content_sha256;
 	nh++;
 	h[nh].name = "x-amz-date";
-	sv4_init(&h[nh].value);
-	sv4_cstr(&h[nh].value, datetime);
+	h[nh].value = datetime;
 	nh++;
 	if (target != NULL) {
 		h[nh].name = "x-amz-target";
@@ -347,77 +289,96 @@ sv4_headers_request(const char * key_id, const char * secret, const char * regio
 		nh++;
 	}
 	sv4_init(&noquery);
-	sv4_canonical_request(&creq, &sh, method, path, &noquery, h, nh, content_sha256);
+	sv4_canonical_request(&creq, &sh, method, canonical_uri, &noquery, h, nh, content_sha256);
 
-	sv4_date_of(datetime, date);
-	sv4_signature(secret, date, datetime, region, service, &creq, sighex);
+	sv4_init(&sec);
+	sv4_in(&sec, secret);
+	sv4_init(&reg);
+	sv4_in(&reg, region);
+	sv4_signature(&sec, &date, &datetime, &reg, service, &creq, sighex);
 
 	sv4_init(authorization);
 	sv4_lit(authorization, "AWS4-HMAC-SHA256 Credential=");
-	sv4_cstr(authorization, key_id);
+	sv4_in(authorization, key_id);
 	sv4_c(authorization, '/');
-	sv4_cstr(authorization, date);
+	sv4_cat(authorization, &date);
 	sv4_c(authorization, '/');
-	sv4_cstr(authorization, region);
+	sv4_in(authorization, region);
 	sv4_c(authorization, '/');
-	sv4_cstr(authorization, service);
+	sv4_cat(authorization, service);
 	sv4_lit(authorization, "/aws4_request,SignedHeaders=");
 	sv4_cat(authorization, &sh);
 	sv4_lit(authorization, ",Signature=");
-	for (i = 0; i < 64; i++)
-		sv4_c(authorization, (uint8_t)sighex[i]);
+	sv4_mem(authorization, sighex, 64);
 }
 
 /*
  * Presigned S3 URL (query-string authentication): the query string to append to
- * ${method} http://${bucket}.s3.amazonaws.com${path}? for the timestamp `datetime` and lifetime `expiry`.
+ * ${method} http://${bucket}.s3.amazonaws.com${path}? for the timestamp `timestamp` and lifetime `expiry`.
+ * The query parameters are, sorted by name, X-Amz-Algorithm, X-Amz-Credential, X-Amz-Date, X-Amz-Expires,
+ * X-Amz-SignedHeaders; values URI-encoded: the '/' separators of the credential become %2F (written out here as in
+ * the S3 documentation), key id and region must be in the identity domain, date/timestamp/number are unreserved.
  */
 static void
 sv4_s3_presigned_query(const char * key_id, const char * secret, const char * region, const char * method,
-    const char * bucket, const char * path, long long expiry, const char * datetime, struct sv4_str * query)
+    const char * bucket, const char * path, int expiry, const char * timestamp, sv4_str * query)
 {
 	struct sv4_header h[1];
-	struct sv4_str creq, sh, cq, cred, payload;
-	char date[9], sighex[65];
-	size_t i;
+	sv4_str creq, sh, cq, payload, sec, reg, svc, date, datetime, meth, uri;
+	char sighex[65];
 
-	sv4_date_of(datetime, date);
-
-	/* Credential = KeyId/Date/Region/s3/aws4_request, URI-encoded as a query value */
-	sv4_init(&cred);
-	sv4_cstr(&cred, key_id);
-	sv4_c(&cred, '/');
-	sv4_cstr(&cred, date);
-	sv4_c(&cred, '/');
-	sv4_cstr(&cred, region);
-	sv4_lit(&cred, "/s3/aws4_request");
+	sv4_init(&datetime);
+	sv4_mem(&datetime, timestamp, 16);
+	sv4_init(&date);
+	sv4_mem(&date, timestamp, 8);
 
 	/* canonical query string: parameters sorted by name */
 	sv4_init(&cq);
 	sv4_lit(&cq, "X-Amz-Algorithm=AWS4-HMAC-SHA256");
 	sv4_lit(&cq, "&X-Amz-Credential=");
-	sv4_uri(&cq, &cred, 0);
+	sv4_uri_in(&cq, key_id, 0);
+	sv4_lit(&cq, "%2F");
+	sv4_cat(&cq, &date);
+	sv4_lit(&cq, "%2F");
+	sv4_uri_in(&cq, region, 0);
+	sv4_lit(&cq, "%2F");
+	sv4_lit(&cq, "s3");
+	sv4_lit(&cq, "%2F");
+	sv4_lit(&cq, "aws4_request");
 	sv4_lit(&cq, "&X-Amz-Date=");
-	sv4_uri_cstr(&cq, datetime, 0);
+	sv4_cat(&cq, &datetime);
 	sv4_lit(&cq, "&X-Amz-Expires=");
-	sv4_dec(&cq, expiry);
+	sv4_int(&cq, expiry);
 	sv4_lit(&cq, "&X-Amz-SignedHeaders=host");
 
 	h[0].name = "host";
 	sv4_init(&h[0].value);
-	sv4_cstr(&h[0].value, bucket);
+	sv4_hdrval_in(&h[0].value, bucket);
 	sv4_lit(&h[0].value, ".s3.amazonaws.com");
 	sv4_init(&payload);
 	sv4_lit(&payload, "UNSIGNED-PAYLOAD");
-	sv4_canonical_request(&creq, &sh, method, path, &cq, h, 1, &payload);
+	sv4_init(&meth);
+	sv4_in(&meth, method);
+	sv4_init(&uri);
+	sv4_uri_in(&uri, path, 1);
+	sv4_canonical_request(&creq, &sh, &meth, &uri, &cq, h, 1, &payload);
 
-	sv4_signature(secret, date, datetime, region, "s3", &creq, sighex);
+	sv4_init(&sec);
+	sv4_in(&sec, secret);
+	sv4_init(&reg);
+	sv4_in(&reg, region);
+	sv4_init(&svc);
+	sv4_lit(&svc, "s3");
+	sv4_signature(&sec, &date, &datetime, &reg, &svc, &creq, sighex);
 
 	sv4_init(query);
 	sv4_cat(query, &cq);
 	sv4_lit(query, "&X-Amz-Signature=");
-	for (i = 0; i < 64; i++)
-		sv4_c(query, (uint8_t)sighex[i]);
+	sv4_mem(query, sighex, 64);
 }
+
+#ifndef VERIF_NATIVE
+#pragma CPROVER check pop
+#endif
 
 #endif /* !SIGV4_SPEC_H_ */
